@@ -249,6 +249,7 @@ class BehavioralRTLIRTypeCheckVisitorL1( bir.BehavioralRTLIRNodeVisitor ):
 
     if isinstance( t, rt.Const ) and isinstance( t.get_dtype(), rdt.Vector ):
       node._value = int(node.obj)
+      s._check_non_negative( node, node._value )
     node.Type = t
     node._is_explicit = not isinstance(node.obj, int)
 
@@ -263,6 +264,12 @@ class BehavioralRTLIRTypeCheckVisitorL1( bir.BehavioralRTLIRNodeVisitor ):
     if not isinstance( node.Type, rt.Component ):
       raise PyMTLTypeError( s.blk, node.ast,
         f'{node} is not a rt.Component!' )
+
+  def _check_non_negative( s, node, value ):
+    # a sized literal has no sign: `8'd-2` is not SystemVerilog
+    if value < 0:
+      raise PyMTLTypeError( s.blk, node.ast,
+        f'negative integer constant {value} has no bitwidth: use BitsN( {value} )!' )
 
   def visit_Number( s, node ):
     # By default, number literals have the minimal bitwidth that can
